@@ -673,6 +673,35 @@ def first_index(cx, s, ch):
     return p
 
 
+LASTIDX = z3.Function("LASTIDX", AII, I, I, I)
+
+
+def last_index(cx, s, ch):
+    """Index of the last occurrence of character ch in s (-1 if absent), with defining axioms per use."""
+    cache = cx.__dict__.setdefault("_lastidx", set())
+    key = (s.arr.get_id(), s.n.get_id(), ch)
+    p = LASTIDX(s.arr, s.n, z3.IntVal(ch))
+    if key not in cache:
+        cache.add(key)
+        t = z3.Int("t!li")
+        cx.axioms += [-1 <= p, p < z3.If(s.n > 0, s.n, 0), z3.Or(p == -1, s.arr[p] == ch),
+                      z3.ForAll([t], z3.Implies(z3.And(p < t, t < s.n), s.arr[t] != ch))]
+    return p
+
+
+def _s_rpartition(ex, st, s, args, kwargs, node, spec):
+    sep = args[0]
+    if not (isinstance(sep, PyConst) and isinstance(sep.v, str) and len(sep.v) == 1):
+        raise Unsupported("str.rpartition with a non-constant or multi-character separator")
+    p = last_index(ex.cx, s, ord(sep.v))
+    found = p >= 0
+    # not found: ('', '', s)
+    left = str_slice(s, z3.IntVal(0), z3.If(found, p, 0))
+    mid = StrV(z3.K(I, z3.IntVal(ord(sep.v))), z3.If(found, 1, 0))
+    right = str_slice(s, z3.If(found, p + 1, 0), s.n)
+    return TupV((left, mid, right))
+
+
 FIRSTSUB = {}
 
 
@@ -836,7 +865,7 @@ def _s_just(left):
 STR_METHODS = {
     "ljust": _s_just(True), "rjust": _s_just(False),
     "lstrip": _s_lstrip, "rstrip": _s_rstrip, "strip": _s_strip,
-    "partition": _s_partition, "find": _s_find, "replace": _s_replace,
+    "partition": _s_partition, "rpartition": _s_rpartition, "find": _s_find, "replace": _s_replace,
     "upper": _map_chars(UPPER), "lower": _map_chars(LOWER), "startswith": _s_startswith, "endswith": _s_endswith,
     "count": _s_count, "encode": _s_encode, "decode": _s_encode, "format": _s_format,
 }
